@@ -196,13 +196,16 @@ func (t *SessionTeardown) TerminateSession(session *Session, cause TerminateCaus
 		zap.String("cause", cause.String()),
 	)
 
-	// A session that was already torn down needs no second PADT and no state change
-	session.mu.RLock()
-	done := session.tornDown
-	session.mu.RUnlock()
-	if done {
+	// A session that was already torn down, or that another TerminateSession call is
+	// already working on, needs no second PADT and no state change. Check and claim in
+	// one step: two calls that both passed a bare check would both send a PADT
+	session.mu.Lock()
+	if session.tornDown || session.terminating {
+		session.mu.Unlock()
 		return nil
 	}
+	session.terminating = true
+	session.mu.Unlock()
 
 	// Update session state
 	session.SetState(StateTerminating)
